@@ -104,7 +104,10 @@ Section Conforms.
   | cf_float r : float_integral r = None -> float_repr r = r ->
                  conforms (RNamed (S_ "Float")) (PFloat r)
   | cf_custom_str n s : mem_str n specified_scalars = false -> alookup n E = Some IScalar ->
+                        int_re s = false -> float_re s = false ->
                         conforms (RNamed n) (PStr s)
+  | cf_custom_float n r : mem_str n specified_scalars = false -> alookup n E = Some IScalar ->
+                          float_repr r = r -> conforms (RNamed n) (PFloat r)
   | cf_custom_bool n b : mem_str n specified_scalars = false -> alookup n E = Some IScalar ->
                          conforms (RNamed n) (PBool b)
   | cf_enum n vals m v : mem_str n specified_scalars = false -> alookup n E = Some (IEnum vals) ->
@@ -140,13 +143,29 @@ Definition deprecated_dir (dep : option str) : list directive :=
 Definition custom_dirs (ds : list directive) : list directive :=
   filter (fun d => negb (mem_str (n_val (d_name d)) specified_directive_names)) ds.
 
+(* A FloatValue node whose text is an integer literal (what the printer emits
+   for an int value of a custom scalar) is printed as that integer and lexed
+   back as an IntValue. *)
+Fixpoint relex (v : value) : value :=
+  match v with
+  | VFloat s l => if int_re s then VInt s l else v
+  | VList vs l => VList (map relex vs) l
+  | VObject fs l =>
+      VObject ((fix go (fs : list (name * value * loc)) : list (name * value * loc) :=
+                  match fs with
+                  | [] => []
+                  | (k, x, lf) :: r => (k, relex x, lf) :: go r
+                  end) fs) l
+  | _ => v
+  end.
+
 Section AstOf.
   Variable E : env.
 
   Definition ivdef_of (a : sivalue) : outcome input_value_def :=
     do dflt <- match siv_default a with
                | None => Ok None
-               | Some v => do n <- node_of_value print_fuel E v (siv_type a); Ok (Some n)
+               | Some v => do n <- node_of_value print_fuel E v (siv_type a); Ok (Some (relex n))
                end;
     Ok (IVDef (strval_of (siv_desc a)) (mk_name (siv_name a)) (ty_of_tref (siv_type a)) dflt
               (custom_dirs (siv_dirs a)) None).
